@@ -77,6 +77,32 @@ def desugar(loc, relfile, fn_paths, rules, _pass=0, optional=()):
                     rewrites.append((a, b, new))
                     records.append({"fn": fp, "rule": "D52 X.iter().copied().collect()  =>  pv_collect_copied(&X)   (stub: a collection with the elements of X in order; the target type is the declared one)",
                                     "original": src[a:b], "rewritten": new})
+            if "D57" in rules:
+                # a by-value `mut self` receiver (not supported by the installed Verus): the receiver is taken immutably and
+                # moved into a mutable local at once; every `self` of the body is that local
+                seg = src[it["start"]:it["end"]]
+                m = re.search(r"\(\s*mut self\b", seg)
+                if m:
+                    depth, k = 0, m.start()
+                    while k < len(seg):
+                        if seg[k] == "(":
+                            depth += 1
+                        elif seg[k] == ")":
+                            depth -= 1
+                            if depth == 0:
+                                break
+                        k += 1
+                    bo = seg.find("{", k)
+                    bc = seg.rfind("}")
+                    if bo < 0 or bc <= bo:
+                        raise Undecided(f"{fp}: rule D57 cannot find the body")
+                    body = seg[bo + 1:bc]
+                    parts = re.split(r'("(?:\\.|[^"\\])*")', body)
+                    body2 = "".join(x if i % 2 else re.sub(r"\bself\b", "pv_self", x) for i, x in enumerate(parts))
+                    new = seg[:m.start()] + "(self" + seg[m.end():bo + 1] + "\n        let mut pv_self = self;" + body2 + seg[bc:]
+                    rewrites.append((it["start"], it["end"], new))
+                    records.append({"fn": fp, "rule": "D57 fn f(mut self, ..) { B }  =>  fn f(self, ..) { let mut pv_self = self; B[self := pv_self] }",
+                                    "original": seg[:bo + 1].strip(), "rewritten": (seg[:m.start()] + "(self" + seg[m.end():bo + 1]).strip() + " let mut pv_self = self; ..."})
             if "D56" in rules:
                 # status lines of the FlatZinc output protocol: appended to the ghost local `pv_log` (declared by the contract file)
                 table = [('println!("==========");', 'pv_emit!(pv_log, Complete);'),
